@@ -6,6 +6,8 @@ package main
 //
 //	Marshal  → bytes → item tree (c16mp.go, the harness' own reader)   vs   model `mp.marshal`
 //	Unmarshal of those bytes, of mutated item trees and of hand-made items   vs   model `mp.unmarshal`
+//	  (number equality inside the refinement builder as the code does it) and `mp.unmarshalx` (the exact
+//	  oracle the theorems are stated for; it answers `unmodelled` where the two could differ)
 //	ImpliedType                                                         vs   model `mp.implied`
 //	cty.ParseNumberVal                                                  vs   model `mp.parse`
 //
@@ -939,6 +941,7 @@ func c16Case(ctx *Ctx, v cty.Value, ct cty.Type, tag string) {
 			dimpl = "ok " + canonVal(dec)
 		}
 		ctx.Add("mp.unmarshal", dimpl, tree.wire(), tw)
+		ctx.Add("mp.unmarshalx", dimpl, tree.wire(), tw) // the exact oracle of the theorems: must agree wherever it answers
 	}
 	ulit := "b, _ := " + lit + "; msgpack.Unmarshal(b, " + c16TyLit(ct) + ")"
 	// the hypotheses of C16.roundtrip_covers must imply that the real round trip is fine
@@ -948,17 +951,20 @@ func c16Case(ctx *Ctx, v cty.Value, ct cty.Type, tag string) {
 	}
 	if dp || derr != nil {
 		out, sig := dwhy, "panic"
-		if dp && strings.Contains(dwhy, "inconsistent") && strings.Contains(dwhy, "element types") {
-			sig = "inconsistent-element-types:" + c16TypeSig(v, ct)
-		} else if cls := c16InexactText(v); dp && cls != "" && strings.Contains(dwhy, "bound") {
-			// the decoded bounds are not the encoded ones, and no longer consistent with each other
-			sig = "inconsistent-bounds:" + cls
-		}
 		if derr != nil {
 			out, sig = derr.Error(), "error"
-			if strings.Contains(out, "oversize unknown value refinement") && c16MaxRefinementText(v) > 900 {
-				sig = "oversize-refinement-from-long-bound-text"
-			}
+		}
+		switch {
+		case strings.Contains(out, "inconsistent") && strings.Contains(out, "element types"),
+			strings.Contains(out, "elements must have the same type"):
+			// the decoder met members of different types (a panic of ListVal/SetVal/MapVal before /repo e63bbcc, an error since)
+			sig = "inconsistent-element-types:" + c16TypeSig(v, ct)
+		case c16InexactText(v) != "" && (strings.Contains(out, "bound") || strings.Contains(out, "invalid refinements")):
+			// the decoded bounds are not the encoded ones, and no longer consistent with each other
+			// (a panic of the refinement builder before /repo 28caeac, an error since)
+			sig = "inconsistent-bounds:" + c16InexactText(v)
+		case strings.Contains(out, "oversize unknown value refinement") && c16MaxRefinementText(v) > 900:
+			sig = "oversize-refinement-from-long-bound-text"
 		}
 		ctx.Fail(Failure{Site: "decode-own-output", Sig: sig, What: "Unmarshal does not accept what Marshal produced for the same type", Input: w + " " + tw, GoLit: ulit, Outcome: out})
 		return
@@ -1028,6 +1034,7 @@ func c16Decode(ctx *Ctx, it *mpItem, ct cty.Type, tag string) {
 		dimpl = "ok " + canonVal(dec)
 	}
 	ctx.Add("mp.unmarshal", dimpl, back.wire(), encTy(ct))
+	ctx.Add("mp.unmarshalx", dimpl, back.wire(), encTy(ct))
 	c16Implied(ctx, b, back)
 }
 
